@@ -17,6 +17,7 @@ impl BlobStore {
     /// Writes a blob to the pager and returns the first page ID.
     /// Direct pager access (for bulk loading).
     pub fn write_direct(pager: &mut Pager, data: &[u8]) -> Result<u64> {
+        let _vo = vowner!("blob");
         // Write from last to first to build the chain
         if data.is_empty() {
             // Handle empty blob
@@ -71,6 +72,7 @@ impl BlobStore {
 
     /// Frees all pages in a blob chain.
     pub fn delete(pager: &mut Pager, mut page_id: u64) -> Result<()> {
+        let _vo = vowner!("blob");
         while page_id != 0 {
             let page = pager.read_page(PageId::new(page_id))?;
             let next_page_id = u64::from_le_bytes(page[0..8].try_into().unwrap());
